@@ -42,6 +42,12 @@ def node_impl(n):
     if k == "failing0":
         from harness.lib import components as _c
         return {"processor": _c.VerifFailingNoMessageOperation}
+    if k == "failmsg":
+        from harness.lib import components as _c
+        return {"processor": _c.make_failing_with(n["msg"])}
+    if k == "note":
+        from harness.lib import components as _c
+        return {"processor": _c.VerifNoteOperation, "parameters": {"note": n["note"]}} if "note" in n else {"processor": _c.VerifNoteOperation}
     if k in ("streamsrc", "streamsum", "sumitems"):
         from harness.lib import components as _c
         return {"processor": {"streamsrc": _c.VerifStreamSource, "streamsum": _c.VerifStreamSum, "sumitems": _c.VerifSumItems}[k]}
@@ -64,6 +70,8 @@ def node_coq(n):
         raise pg.Unsupported("one-shot iterator component (direct oracle only)")
     if k == "baddesc":
         raise pg.Unsupported("descriptor-valued parameter (direct oracle only)")
+    if k in ("failmsg", "note"):
+        raise pg.Unsupported("unusual-string component (direct oracle only)")
     if k == "failing0":
         return "(mkNode lib_failing [] None)"     # the model's error carries the class, not the message
     if k == "interrupt":
@@ -85,7 +93,7 @@ def node_meta(n):
 
 
 def node_repr(n):
-    if n["k"] in ("interrupt", "datesweep", "streamsrc", "streamsum", "sumitems", "baddesc", "failing0"):
+    if n["k"] in ("interrupt", "datesweep", "streamsrc", "streamsum", "sumitems", "baddesc", "failing0", "failmsg", "note"):
         c = node_impl(n)
         c = json.loads(json.dumps(c, default=lambda o: getattr(o, "__name__", None) or str(o)))
         return c
@@ -261,7 +269,7 @@ class Traced:
     pass
 
 
-def run_traced(nodes, data0, ctx0, detail="hash", mode="file", pipe=None, driver=None, path=None, keep_dir=False):
+def run_traced(nodes, data0, ctx0, detail="hash", mode="file", pipe=None, driver=None, path=None, keep_dir=False, run_metadata=None):
     """Traced run.  Observes, at the moment process() returns or raises: driver._file, bytes on disk;
     then forces the handle shut and reads what was emitted."""
     pg.setup_impl()
@@ -282,6 +290,8 @@ def run_traced(nodes, data0, ctx0, detail="hash", mode="file", pipe=None, driver
     r.t0 = time.time()
     with ExecLog() as log:
         try:
+            if run_metadata is not None:
+                pipe.set_run_metadata(run_metadata)
             result = pipe.process(make_payload(data0, ctx0))
         except BaseException as ex:  # noqa
             exc = ex
@@ -796,3 +806,73 @@ if __name__ == "__main__":
     import sys
     if sys.argv[1:] == ["tzprobe"]:
         tz_probe_main()
+
+
+# ----- unusual but legal strings (direct oracle only: the model's strings are printable ASCII) ---------------
+UNUSUAL_STRINGS = ["caf\u00e9 \u00fc", "tmp_\udc80.dat", "half \ud800 pair", "\U0001F600 ok", "line\nbreak\r\n", "nul\x00byte", "\u2028sep", "\udcff"]
+
+
+def unusual_string_cases(rng, n):
+    """pipelines in which an unusual string reaches the trace: under an untouched context key, as the value of a node parameter
+    (from the configuration and from the context), and as the message of the exception a node raises"""
+    out = []
+    for i in range(n):
+        s = UNUSUAL_STRINGS[i % len(UNUSUAL_STRINGS)]
+        where = ("context", "parameter", "context-parameter", "exception")[(i // len(UNUSUAL_STRINGS) + i) % 4]
+        base = [{"k": "src", "cfg": {"value": 2}}, {"k": "mul", "cfg": {"factor": 3}}]
+        ctx0 = {}
+        if where == "context":
+            nodes, ctx0 = base + [{"k": "probe", "ckey": "k"}], {"label": s}
+        elif where == "parameter":
+            nodes = base + [{"k": "note", "note": s}, {"k": "probe", "ckey": "k"}]
+        elif where == "context-parameter":
+            nodes, ctx0 = base + [{"k": "note"}, {"k": "probe", "ckey": "k"}], {"note": s}
+        else:
+            nodes = base + [{"k": "failmsg", "msg": s}, {"k": "probe", "ckey": "k"}]
+        out.append({"nodes": nodes, "data0": None, "ctx0": ctx0, "kind": "unusual-string:" + where, "direct_only": True})
+    return out
+
+
+def launch_style_runs(nodes, data0, ctx0, detail, mode, n_runs=3):
+    """What a run-space launch does: ONE driver and ONE Pipeline object, n runs, each carrying the launch's TraceContext
+    in its run metadata.  -> (list of Traced, list of problems); the contract of every single run is unchanged:
+    closed handle and everything on disk when process() returns or raises, one well-formed bracket per run, and in
+    directory mode one file per run holding that run's records only."""
+    pg.setup_impl()
+    from semantiva.trace.drivers.jsonl import JsonlTraceDriver
+    from semantiva.trace.runtime import TraceContext
+    own_dir = tempfile.mkdtemp(prefix="verif_launch_")
+    path = os.path.join(own_dir, "t.ser.jsonl") if mode == "file" else os.path.join(own_dir, "traces")
+    driver = JsonlTraceDriver(path, detail=detail)
+    pipe = make_pipeline(nodes, trace=driver)
+    tctx = TraceContext()
+    tctx.set_run_space_fk(spec_id="s" * 64, launch_id="l-verif", attempt=1, inputs_id=None)
+    runs, problems = [], []
+    try:
+        for i in range(n_runs):
+            files_before = set(glob.glob(os.path.join(path, "*.ser.jsonl"))) if mode == "directory" else set()
+            r = run_traced(nodes, data0, ctx0, detail=detail, mode=mode, pipe=pipe, driver=driver, path=path,
+                           run_metadata={"trace_context": tctx, "run_space_index": i, "run_space_context": dict(ctx0)})
+            runs.append(r)
+            for p, _ in bracket_problems(r):
+                problems.append("run %d: %s" % (i, p))
+            if mode == "directory":
+                new = set(glob.glob(os.path.join(path, "*.ser.jsonl"))) - files_before
+                if len(new) != 1:
+                    problems.append("run %d: %d new trace files in directory mode" % (i, len(new)))
+        if mode == "directory":
+            for f in glob.glob(os.path.join(path, "*.ser.jsonl")):
+                ids, ends = set(), 0
+                for ln in open(f, encoding="utf-8").read().splitlines():
+                    try:
+                        rec = json.loads(ln)
+                    except Exception:  # noqa
+                        continue
+                    if rec.get("record_type") in ("pipeline_start", "pipeline_end", "ser"):
+                        ids.add(rec.get("run_id") or (rec.get("identity") or {}).get("run_id"))
+                        ends += rec.get("record_type") == "pipeline_end"
+                if len(ids) > 1 or ends > 1:
+                    problems.append("one trace file holds %d run ids and %d pipeline_end records" % (len(ids), ends))
+    finally:
+        shutil.rmtree(own_dir, ignore_errors=True)
+    return runs, problems
